@@ -119,9 +119,12 @@ func runC06(c *core.Ctx) {
 	defer restore()
 	loop := core.NewLoop(c, 400)
 	epoch := drawEpoch(t)
-	mtu := []int{1200, 64, 100, 1500, 65535, 0}[t.Weighted(4, 3, 3, 2, 1, 2)]
+	mtu := []int{1200, 64, 100, 1500, 65535, 0, -1}[t.Weighted(4, 3, 3, 2, 1, 2, 1)]
 	if mtu == 0 {
 		mtu = 64 + t.Intn(65535-64+1)
+	}
+	if mtu == -1 {
+		mtu = 12 + 253 + t.Intn(6) // MTU - 12 around the largest padding count a packet can carry (255)
 	}
 	pt := uint8(t.Intn(128))
 	ssrc := uint32(t.Draw(1 << 32))
@@ -175,6 +178,13 @@ func runC06(c *core.Ctx) {
 					l = int(m) // exactly MTU-12
 				}
 				out[i] = t.Bytes(l)
+				if t.Chance(1, 12) {
+					out[i] = t.Bytes(0) // an empty fragment is still a fragment: it gets its packet, and if it is the last one, the marker
+					if t.Bool() {
+						out[i] = nil
+					}
+					c.Probe("empty-fragment-from-payloader")
+				}
 			}
 			return out
 		}
@@ -269,7 +279,7 @@ func runC06(c *core.Ctx) {
 			rec.last, rec.mtus = nil, nil
 			clockReads = clockReads[:0]
 			var pkts []*rtp.Packet
-			if c.Guard("rtp.Packetizer.Packetize", func() { pkts = pk.Packetize(payload, samples) }) {
+			if c.Guard("rtp.Packetizer.Packetize", func() { pkts = pk.Packetize(spare(t, payload), samples) }) {
 				return
 			}
 			frags := rec.last
